@@ -29,9 +29,9 @@ class DetRandom:
 
 
 def hdr_bytes(v):
-    """Header value as the bytes a client puts on the wire (UTF-8 when not latin-1)."""
+    """Header value as the bytes a client puts on the wire (UTF-8 when not ASCII)."""
     try:
-        return v.encode('latin-1')
+        return v.encode('ascii')
     except UnicodeEncodeError:
         return v.encode('utf-8')
 
